@@ -653,6 +653,8 @@ fn try_run_func(
         let cr_list = scripting::run_lines(sh, &func_body, &args, capture);
         let mut stdout = String::new();
         let mut stderr = String::new();
+        // the status of a function call is that of the last command it ran
+        let status = cr_list.last().map_or(0, |x| x.status);
         for cr in cr_list {
             stdout.push_str(cr.stdout.trim());
             stdout.push(' ');
@@ -660,6 +662,7 @@ fn try_run_func(
             stderr.push(' ');
         }
         let mut cr = CommandResult::new();
+        cr.status = status;
         cr.stdout = stdout;
         cr.stderr = stderr;
         return Some(cr);
